@@ -203,7 +203,7 @@ func (vc *VC) run() {
 		results[i] = v
 	}
 	vc.final, vc.topResults = final, results
-	penv := &SpecEnv{vc: vc, st: final, old: vc.entry, vars: map[string]*SV{}, pkg: env.pkg}
+	penv := &SpecEnv{vc: vc, st: final, old: vc.entry, vars: map[string]*SV{}, pkg: env.pkg, fx: fx}
 	for n, v := range vc.params {
 		penv.vars[n] = v
 	}
@@ -229,6 +229,20 @@ func (vc *VC) run() {
 		vc.obligeTagged(final, "post:"+e.Label, "post", g, e.Tags, e.Src)
 	}
 	vc.frameObligations(final, penv)
+	// a call-site assertion that matched no call is a stale contract (it would otherwise pass vacuously)
+	if !vc.discovery && vc.dry == 0 {
+		for _, ca := range fc.CallAsserts {
+			if !vc.matchedAsserts[ca] {
+				var seen []string
+				for c := range vc.seenCallees {
+					seen = append(seen, c)
+				}
+				sort.Strings(seen)
+				o := &Obligation{Name: vc.fnName() + "#call:" + ca.Callee + ":" + ca.Clause.Label + ":unmatched", Kind: "stale", PC: True(), Goal: False(), Taint: "assertion names a callee that is never called here (callees: " + strings.Join(seen, ", ") + ")", Fn: vc.fnName(), Tags: tagsOf(fc), Src: ca.Clause.Src}
+				vc.obls = append(vc.obls, o)
+			}
+		}
+	}
 	if !vc.discovery {
 		vc.canary = &Obligation{Name: vc.fnName() + "#vacuity:exit_reachable", Kind: "vacuity-sat", PC: final.pc, Goal: False(), NAssume: len(vc.assumes), Fn: vc.fnName()}
 	}
